@@ -306,7 +306,7 @@ where
     let mut rng = ctx.rng(&inst, 0);
     let hue_field = hue_index.map(|k| fields[k]);
     let fa = [fields[0], fields[1], fields[2], "alpha"];
-    for it in 0..ctx.n(60, 3000) {
+    for it in 0..ctx.n(60, 10_000) {
         let comps: [T; 3] = core::array::from_fn(|k| T::gen(&mut rng, Some(k) == hue_index));
         let alpha = match it % 4 {
             0 => T::opaque(),
@@ -360,7 +360,7 @@ where
     let inst = format!("PreAlpha<{}>/{}", name, T::NAME);
     let mut rng = ctx.rng(&inst, 0);
     let fa = [fields[0], fields[1], fields[2], "alpha"];
-    for it in 0..ctx.n(60, 3000) {
+    for it in 0..ctx.n(60, 10_000) {
         let comps: [T; 3] = core::array::from_fn(|_| T::gen(&mut rng, false));
         let alpha = match it % 4 {
             0 => T::opaque(),
@@ -499,7 +499,7 @@ fn main() {
     // Luma (one field)
     {
         let mut rng = ctx.rng("cam16", 0);
-        for _ in 0..ctx.n(60, 3000) {
+        for _ in 0..ctx.n(60, 10_000) {
             let l: palette::SrgbLuma<f32> = palette::SrgbLuma::new(f32::gen(&mut rng, false));
             one::<palette::SrgbLuma<f32>, f32, 1>(&mut m, "Luma/f32", l, &["luma"], None);
             let la: palette::SrgbLumaa<f32> = palette::SrgbLumaa::new(f32::gen(&mut rng, false), f32::gen(&mut rng, false));
